@@ -30,6 +30,7 @@ type Op struct {
 	Reuse    bool     `json:"reuse,omitempty"`   // regnode: register the SAME node object that is currently registered under the id
 	Shape    int      `json:"shape,omitempty"`   // regnode: 0 plain *N, 1 Unwrapper-only wrapper, 2 wrapper that is Closer and Unwrapper, 3 uncomparable value node
 	CtxDone  bool     `json:"ctxDone,omitempty"` // rpan / rmnode: call with an already cancelled context
+	Dress    int      `json:"dress,omitempty"`   // regnode / regpipe: how the option list is dressed up (the effective policy stays Pol): 1 a nil option first, 2 the opposite policy first (last one wins), 3 an option of the OTHER kind (node vs pipeline) with the opposite policy appended
 }
 
 func (o Op) String() string {
@@ -49,9 +50,10 @@ func (o Op) String() string {
 		if o.Shape != 0 {
 			x += [...]string{"", ",unwrapper", ",closer+unwrapper", ",uncomparable-value"}[o.Shape]
 		}
+		x += [...]string{"", ",nil-option-first", ",opposite-policy-first", ",other-kind-option-last"}[o.Dress&3]
 		return fmt.Sprintf("RegNode(%q,%s%s%s)", o.N, TypeName(o.NT), pol, x)
 	case "regpipe":
-		return fmt.Sprintf("RegPipe(%s/%q,[%s]%s)", o.ET, o.P, strings.Join(o.IDs, " "), pol)
+		return fmt.Sprintf("RegPipe(%s/%q,[%s]%s%s)", o.ET, o.P, strings.Join(o.IDs, " "), pol, [...]string{"", ",nil-option-first", ",opposite-policy-first", ",other-kind-option-last"}[o.Dress&3])
 	case "rmpipe":
 		return fmt.Sprintf("RemovePipeline(%s/%q)", o.ET, o.P)
 	case "rpan":
@@ -116,17 +118,18 @@ type Result struct {
 
 // Exec applies ops to a real Broker and tracks what is registered from the results.
 type Exec struct {
-	B     *eventlogger.Broker
-	W     *nodes.World
-	Last  map[string]*nodes.N // last successfully registered instance per id
-	LastObj map[string]eventlogger.Node // the object handed to RegisterNode for that instance
+	B        *eventlogger.Broker
+	W        *nodes.World
+	Last     map[string]*nodes.N         // last successfully registered instance per id
+	LastObj  map[string]eventlogger.Node // the object handed to RegisterNode for that instance
 	Wrappers map[*nodes.N]*nodes.WrapCloser
-	All   []*nodes.N          // every instance ever created
-	Pipes map[PKey]*Pipe
-	Hist  []Op
-	gen   int
-	ninst int
-	sends int
+	All      []*nodes.N // every instance ever created
+	Pipes    map[PKey]*Pipe
+	Hist     []Op
+	gen      int
+	keep     [][]eventlogger.NodeID
+	ninst    int
+	sends    int
 	// NewNode lets a test customise instances (re-entrant nodes etc.).
 	NewNode func(op Op, n *nodes.N)
 }
@@ -154,6 +157,32 @@ func polOpt(node bool, pol int) []eventlogger.Option {
 	return []eventlogger.Option{eventlogger.WithPipelineRegistrationPolicy(p)}
 }
 
+// dressed builds the option list for a registration call. Whatever the dressing, the effective policy is pol:
+// nil options are skipped, the last option of a kind wins, and an option of the other kind does not concern this call.
+func dressed(node bool, pol, dress int) []eventlogger.Option {
+	opts := polOpt(node, pol)
+	opposite := eventlogger.DenyOverwrite
+	if pol == 2 {
+		opposite = eventlogger.AllowOverwrite
+	}
+	same := eventlogger.WithPipelineRegistrationPolicy
+	other := eventlogger.WithNodeRegistrationPolicy
+	if node {
+		same, other = other, same
+	}
+	switch dress {
+	case 1:
+		opts = append([]eventlogger.Option{nil}, opts...)
+	case 2:
+		if pol != 0 {
+			opts = append([]eventlogger.Option{same(opposite)}, opts...)
+		}
+	case 3:
+		opts = append(opts, other(opposite))
+	}
+	return opts
+}
+
 func nids(ids []string) []eventlogger.NodeID {
 	out := make([]eventlogger.NodeID, len(ids))
 	for i, s := range ids {
@@ -175,7 +204,7 @@ func (x *Exec) Apply(op Op) Result {
 			// the very same object again (only the policy may differ)
 			n := x.Last[op.N]
 			x.All = append(x.All, n)
-			r.Err = x.B.RegisterNode(eventlogger.NodeID(op.N), x.LastObj[op.N], polOpt(true, op.Pol)...)
+			r.Err = x.B.RegisterNode(eventlogger.NodeID(op.N), x.LastObj[op.N], dressed(true, op.Pol, op.Dress)...)
 			break
 		}
 		n := &nodes.N{W: x.W, Name: fmt.Sprintf("%s#%d", op.N, x.ninst), ID: op.N, T: eventlogger.NodeType(op.NT), SinkReturnsEvent: op.SinkRet}
@@ -197,13 +226,20 @@ func (x *Exec) Apply(op Op) Result {
 		case 3:
 			obj = nodes.Uncomparable{Inner: n, Pad: []int{1}}
 		}
-		r.Err = x.B.RegisterNode(eventlogger.NodeID(op.N), obj, polOpt(true, op.Pol)...)
+		r.Err = x.B.RegisterNode(eventlogger.NodeID(op.N), obj, dressed(true, op.Pol, op.Dress)...)
 		if r.Err == nil {
 			x.Last[op.N] = n
 			x.LastObj[op.N] = obj
 		}
 	case "regpipe":
-		r.Err = x.B.RegisterPipeline(eventlogger.Pipeline{PipelineID: eventlogger.PipelineID(op.P), EventType: eventlogger.EventType(op.ET), NodeIDs: nids(op.IDs)}, polOpt(false, op.Pol)...)
+		// the caller owns the NodeIDs slice: it is overwritten right after the call, as a caller that reuses one
+		// buffer for the next definition would
+		callerIDs := append(make([]eventlogger.NodeID, 0, len(op.IDs)+4), nids(op.IDs)...)
+		r.Err = x.B.RegisterPipeline(eventlogger.Pipeline{PipelineID: eventlogger.PipelineID(op.P), EventType: eventlogger.EventType(op.ET), NodeIDs: callerIDs}, dressed(false, op.Pol, op.Dress)...)
+		for i := range callerIDs {
+			callerIDs[i] = "overwritten-by-the-caller"
+		}
+		x.keep = append(x.keep, callerIDs)
 		if r.Err == nil {
 			x.gen++
 			p := &Pipe{Key: PKey{eventlogger.EventType(op.ET), eventlogger.PipelineID(op.P)}, IDs: append([]string(nil), op.IDs...), Gen: x.gen}
